@@ -6,7 +6,7 @@ ROOT = os.path.dirname(os.path.dirname(os.path.abspath(__file__)))
 SPEC = os.path.join(ROOT, 'spec')
 HARNESS = os.path.join(ROOT, 'harness')
 REPO = os.environ.get('KVASS_REPO', '/repo')
-EVID = os.path.join(ROOT, 'evidence')
+EVID = os.environ.get('VERIF_EVID') or os.path.join(ROOT, 'evidence')
 REPLAYS = os.path.join(ROOT, 'out', 'replays')
 TLA_JAR = '/opt/veriftools/tla/tla2tools.jar'
 
@@ -55,23 +55,55 @@ def run(cmd, cwd=None, env=None, timeout=None, check=True, stdin=None):
 
 
 def build_harness(scratch):
-    """Builds kvh from /repo's current working tree (replace directive) with the verif tag."""
+    """Builds kvh from the repository's current working tree (REPO, default /repo) with the verif
+    tag.  The harness module is copied to the scratch directory first, so that neither /verif nor
+    /repo is written to (go -mod=mod rewrites go.mod / go.sum of the module it builds)."""
     out = os.path.join(scratch, 'kvh')
-    # go.sum of the harness must cover the repository's requirements
+    hdir = os.path.join(scratch, 'harness')
+    if os.path.exists(hdir):
+        shutil.rmtree(hdir)
+    shutil.copytree(HARNESS, hdir)
     src_sum = os.path.join(REPO, 'go.sum')
     if os.path.exists(src_sum):
-        shutil.copyfile(src_sum, os.path.join(HARNESS, 'go.sum'))
-    gomod = os.path.join(HARNESS, 'go.mod')
+        shutil.copyfile(src_sum, os.path.join(hdir, 'go.sum'))
+    gomod = os.path.join(hdir, 'go.mod')
     txt = open(gomod).read()
-    want = 'replace tkestack.io/kvass => %s' % REPO
-    new = re.sub(r'replace tkestack.io/kvass => \S+', want, txt)
-    if new != txt:
-        open(gomod, 'w').write(new)
+    txt = re.sub(r'replace tkestack.io/kvass => \S+', 'replace tkestack.io/kvass => %s' % REPO, txt)
+    open(gomod, 'w').write(txt)
     try:
-        run(['go', 'build', '-tags', 'verif', '-o', out, './cmd/kvh'], cwd=HARNESS, env=GOENV, timeout=900)
+        run(['go', 'build', '-tags', 'verif', '-o', out, './cmd/kvh'], cwd=hdir, env=GOENV, timeout=900)
     except Inconclusive as e:
         raise Inconclusive('harness does not build against %s: %s' % (REPO, e))
     return out
+
+
+def run_sharded(kvh, sub, infile, outfile, extra=None, nproc=None, timeout=3000):
+    """Runs `kvh <sub> -in chunk -out part` in nproc processes over the lines of infile and
+    concatenates the outputs (each process has its own virtual clock / package state)."""
+    nproc = nproc or ncpu()
+    lines = open(infile).read().splitlines()
+    nproc = max(1, min(nproc, len(lines)))
+    procs = []
+    for i in range(nproc):
+        part = lines[i::nproc]
+        pin = '%s.part%d' % (infile, i)
+        pout = '%s.part%d' % (outfile, i)
+        open(pin, 'w').write('\n'.join(part) + '\n')
+        procs.append((subprocess.Popen([kvh, sub, '-in', pin, '-out', pout] + (extra or []),
+                                       stdout=subprocess.PIPE, stderr=subprocess.PIPE), pin, pout))
+    with open(outfile, 'w') as out:
+        for p, pin, pout in procs:
+            try:
+                so, se = p.communicate(timeout=timeout)
+            except subprocess.TimeoutExpired:
+                p.kill()
+                raise Inconclusive('kvh %s timed out' % sub)
+            if p.returncode != 0:
+                raise Inconclusive('kvh %s failed (%d): %s' % (sub, p.returncode, se.decode(errors='replace')[-3000:]))
+            if os.path.exists(pout):
+                out.write(open(pout).read())
+                os.remove(pout)
+            os.remove(pin)
 
 
 def stage_specs(scratch):
